@@ -473,15 +473,13 @@ def run(ctx, arch, codes, machine=None):
         m = machine or Machine(arch)
         for c in codes:
             if not isinstance(c, Adt):
-                m.errors.append("non-instruction in emission list: %r" % (c,))
-                continue
+                raise AnalysisError("the folded emission list contains a value the interpreter could not determine (%r): the analysis cannot follow this code" % (c,))
             step_rv(m, c.variant, rv_operands(c))
         return m
     m = machine or Machine(arch)
     for c in codes:
         if not isinstance(c, Adt):
-            m.errors.append("non-instruction in emission list: %r" % (c,))
-            continue
+            raise AnalysisError("the folded emission list contains a value the interpreter could not determine (%r): the analysis cannot follow this code" % (c,))
         if c.variant == "COMMENT":
             continue
         if c.variant == "LAB":
@@ -570,8 +568,7 @@ def explore(ctx, arch, codes, m0, max_paths=4000, facts0=None, start=0):
             if steps > 5_000_000:
                 raise AnalysisError("explore: step budget exceeded")
             if not isinstance(c, Adt):
-                m.errors.append("non-instruction in emission list: %r" % (c,))
-                continue
+                raise AnalysisError("the folded emission list contains a value the interpreter could not determine (%r): the analysis cannot follow this code" % (c,))
             if c.variant in ("COMMENT", "LAB"):
                 continue
             if c.variant == "MARK":
